@@ -98,10 +98,9 @@ func (m *ModuleInstance) Close(ctx context.Context) (err error) {
 
 // CloseWithExitCode implements the same method as documented on api.Module.
 func (m *ModuleInstance) CloseWithExitCode(ctx context.Context, exitCode uint32) (err error) {
-	if !m.setExitCode(exitCode, exitCodeFlagResourceClosed) {
+	if !m.s.closeAndDeleteModule(m, exitCode, exitCodeFlagResourceClosed) {
 		return nil // not an error to have already closed
 	}
-	_ = m.s.deleteModule(m)
 	return m.ensureResourcesClosed(ctx)
 }
 
@@ -111,10 +110,9 @@ func (m *ModuleInstance) IsClosed() bool {
 }
 
 func (m *ModuleInstance) closeWithExitCodeWithoutClosingResource(exitCode uint32) (err error) {
-	if !m.setExitCode(exitCode, exitCodeFlagResourceNotClosed) {
+	if !m.s.closeAndDeleteModule(m, exitCode, exitCodeFlagResourceNotClosed) {
 		return nil // not an error to have already closed
 	}
-	_ = m.s.deleteModule(m)
 	return nil
 }
 
